@@ -93,6 +93,10 @@ pub fn run(t: &[&str]) -> String {
                 Err(e) => { if verbose { eprintln!("ERR scan: {}", e); } format!("scanerr:{}", err_class(&e)) }
             }),
             "X" => out.push(match tree.dealloc() { Ok(()) => "xok".into(), Err(e) => format!("xerr:{}", err_class(&e)) }),
+            "Z" => out.push(match tree.free_list() {
+                Ok((total, head, tail, list)) => format!("free[{}:{}:{}:{}]", total, opt(head), opt(tail), list.iter().map(|x| x.to_string()).collect::<Vec<_>>().join(">")),
+                Err(_) => "free[!]".into(),
+            }),
             "D" => {
                 let pages = match tree.dump() {
                     Ok(p) => p,
